@@ -12,7 +12,7 @@ for t in E.registry.contracts:
         if r.unbound: print("UNBOUND", r.unbound)
         for o in r.obligations:
             if re.search(sys.argv[3], o.name):
-                for mode, kw in (("ground", dict(defs="ground", fuel=3)), ("ground-light", dict(defs="ground", fuel=3, axioms="light")), ("ground-focus", dict(defs="ground", fuel=3, axioms="light", focus=True)), ("ground-focus-aseq", dict(defs="ground", fuel=3, axioms="light", focus=True, seq="abstract")), ("light", dict(axioms="light")), ("none", dict(axioms=False)), ("full", {}), ("light-aseq", dict(axioms="light", seq="abstract")), ("focus", dict(axioms="light", focus=True)), ("focus-aseq", dict(axioms="light", focus=True, seq="abstract"))):
+                for mode, kw in (("ground-nl", dict(defs="ground", fuel=2, nl="abstract")), ("light-nl", dict(axioms="light", nl="abstract")), ("ground-light-nl", dict(defs="ground", fuel=2, nl="abstract", axioms="light")), ("ground", dict(defs="ground", fuel=3)), ("ground-light", dict(defs="ground", fuel=3, axioms="light")), ("ground-focus", dict(defs="ground", fuel=3, axioms="light", focus=True)), ("ground-focus-aseq", dict(defs="ground", fuel=3, axioms="light", focus=True, seq="abstract")), ("light", dict(axioms="light")), ("none", dict(axioms=False)), ("full", {}), ("light-aseq", dict(axioms="light", seq="abstract")), ("focus", dict(axioms="light", focus=True)), ("focus-aseq", dict(axioms="light", focus=True, seq="abstract"))):
                     txt = prove.vc_text(E, o, **kw)
                     open(f"/tmp/try_{mode}.smt2", "w").write(txt)
                     for sv, fn in (("z3", solver.run_z3), ("cvc5", solver.run_cvc5)):
